@@ -216,7 +216,7 @@ const char *const hx_kinds[] = {
         "CBC128E+HMAC1:HC", "CBC128D+HMAC1:CH", "CTR128E+CMAC:HC",
         "CHACHA20E+POLY", "ECB128E+SHA1", "CBCS128E+HMAC256", "DOCSIS128E+HMAC1",
         /* decrypt direction / remaining key sizes of the symmetric stream modes (own rows of the dispatch tables) */
-        "CTR128D", "CTR256D", "CTRBIT192E", "CTRBIT256E", "CTRBIT128D", "ZUC128D", "ZUC256D", "SNOW3GD", "KASUMID",
+        "CTR128D", "CTR256D", "ECB128D", "ECB192E", "ECB256D", "CTRBIT192E", "CTRBIT256E", "CTRBIT128D", "ZUC128D", "ZUC256D", "SNOW3GD", "KASUMID",
         "CHACHA20D", "SNOWVD", "SM4ECBD", "SM4CTRD", "DOCSIS256D", "SNOWVAEADD", "CCM256D", "GCM192E", "GCM256D",
         "DOCSIS256D+DOCSISCRC",
         "CUSTOME", "+CUSTOMH", "CUSTOME+HMAC1:HC", "CUSTOMD+HMAC256", "CUSTOME+CUSTOMH", "CBC128E+CUSTOMH",
@@ -319,6 +319,9 @@ spec_fill(const cdesc *c, const hdesc *h, int dir, int order_override, hx_rng *r
                 if (h->ha == IMB_AUTH_CUSTOM && hx_below(r, (uint32_t) hx_custom_fail_rate) == 0)
                         sp->cfail |= 2;
         }
+        if ((c->cm == IMB_CIPHER_CNTR || c->cm == IMB_CIPHER_CNTR_BITLEN || c->cm == IMB_CIPHER_SM4_CNTR) && sp->ivlen == 16 &&
+            hx_below(r, 3) == 0)
+                sp->ctrcls = 1 + hx_below(r, 3);
         /* default order as the documentation recommends */
         if (c->cm == IMB_CIPHER_NULL)
                 sp->order = IMB_ORDER_HASH_CIPHER;
@@ -620,6 +623,26 @@ hx_job_build(IMB_MGR *mgr, const hx_spec *sp, int id, hx_job *j)
                         /* 25-byte ZUC-256 IV: bytes 17..24 carry 6-bit values */
                         for (int i = 17; i < 25; i++)
                                 j->iv[i] &= 0x3f;
+                }
+        }
+        if (sp->ctrcls && j->iv && sp->ivlen == 16) {
+                /* counter classes for the CTR modes with a full 16-byte counter block: the 32-bit block counter
+                 * wraps inside the message (1), a carry runs out of the low byte / 16 bits (2), everything above
+                 * the counter is all ones as well (3) */
+                uint32_t blocks = (sp->len + 15) / 16;
+                if (sp->ctrcls == 1) {
+                        uint32_t c = 0xffffffffu - hx_below(&r, blocks ? blocks : 1);
+                        j->iv[12] = (uint8_t) (c >> 24);
+                        j->iv[13] = (uint8_t) (c >> 16);
+                        j->iv[14] = (uint8_t) (c >> 8);
+                        j->iv[15] = (uint8_t) c;
+                } else if (sp->ctrcls == 2) {
+                        j->iv[13] = 0xff;
+                        j->iv[14] = 0xff;
+                        j->iv[15] = (uint8_t) (0xff - hx_below(&r, 4));
+                } else {
+                        memset(j->iv + 4, 0xff, 12);
+                        j->iv[15] = (uint8_t) (0xff - hx_below(&r, 3));
                 }
         }
         if (sp->aadlen) {
